@@ -213,6 +213,10 @@ func (s *IOFault) Run(env *core.Env, st *core.Stats) (vs []core.Violation) {
 			if !writeFault(k, 0) || !writeFault(k, 1) || !writeFault(k, 2) {
 				return vs
 			}
+			if k%64 == 63 && core.CapReached() {
+				st.Probe("enumeration-cut-short-by-the-wall-clock-cap")
+				return vs
+			}
 		}
 	}
 
@@ -293,6 +297,10 @@ func (s *IOFault) Run(env *core.Env, st *core.Stats) (vs []core.Violation) {
 			return vs
 		}
 		for k := 0; k < consumed; k++ {
+			if k%64 == 63 && core.CapReached() {
+				st.Probe("enumeration-cut-short-by-the-wall-clock-cap")
+				return vs
+			}
 			if !readFault(k, false) {
 				return vs
 			}
